@@ -16,6 +16,7 @@ import Cacache.Lemmas.CacheRefine
 import Cacache.Lemmas.ListRefine
 import Cacache.Lemmas.Gaps
 import Cacache.Props.C16
+import Cacache.Lemmas.SpecLaws
 
 namespace Cacache.C16x
 open Prog Refine CacheRefine ListRefine
@@ -201,6 +202,20 @@ theorem rewrite_same_bytes_driver (env1 env2 : Env) (fl1 fl2 : Flavour) (key1 ke
         (run env1 (write (mkCfg xx) fl1 cache a key1 data) fs).2.1).2.1 :=
   C16.rewrite_same_bytes (mkCfg xx) cache env1 env2 fl1 fl2 key1 key2 a data fs h
     (hexLen_mkCfg xx hxx) hk1 hk2 hd
+
+/-- **Identical data is stored once, whenever it is written again** (any configuration `cfg`): on a
+healthy store whose address for these bytes already holds them — written by any earlier call of
+any flavour, however chunked, any number of operations ago — a by-address write of the same bytes
+leaves every address → bytes mapping exactly as it was, keeps the store healthy and answers the
+same integrity as the abstract write. -/
+theorem rewrite_is_noop (cfg : Cfg) (env : Env) (fl : Flavour) (o : WriteOpts) (chunks : List Bytes)
+    (fs : FS) (h : HealthyStore cfg cache fs) (hl : HexLen cfg)
+    (hp : absStore cache fs (o.algo.getD .sha256)
+      (Bytes.hex (cfg.H (o.algo.getD .sha256) chunks.flatten)) = some chunks.flatten) :
+    absStore cache (sRunOps cfg cache [(env, .put fl o chunks)] fs).2 = absStore cache fs ∧
+    HealthyStore cfg cache (sRunOps cfg cache [(env, .put fl o chunks)] fs).2 ∧
+    (sRunOps cfg cache [(env, .put fl o chunks)] fs).1 = [.wrote (putAnswer cfg o chunks.flatten)] :=
+  SpecLaws.rewrite_is_noop cfg cache env fl o chunks fs h hl hp
 
 end Cacache.C16x
 
